@@ -59,7 +59,14 @@ TARGETS = [
            effects={'qs_load_next': ['this', 'QSLH', 'SUCC_PENDING', 'SUCC_LINKED'], 'qs_store_next': ['this', 'QSLH', 'SUCC_PENDING', 'SUCC_LINKED'], 'qs_store_got': ['this', 'QSLH', 'SUCC', 'ME', 'SUCC_PENDING', 'SUCC_LINKED', 'N_HANDOFF', 'HANDOFF_TO'],
                     'qs_cas': ['this', 'expected', 'QSLH', 'ME', 'SUCC_PENDING', 'SUCC_LINKED', 'N_TAIL_W', 'TAIL_W_OLD', 'TAIL_W_NEW']}, pure=[], ptr_targets={'next': ['SUCC'], 'h': ['QSLH']})}),
 ]
-UNITS = {'mutex.c': 'mutex.c.in', 'qspin.c': 'qspin.c.in'}
+# the hand-off protocol of unlock() parks the reason -1 in the woken waiter's error_number: thread_interrupt must not replace it.  The
+# kernel is C04's (specs/C04/sched.c.in + its targets), re-run here so that the mutex property sees a change of that function too.
+import importlib.util as _ilu, os as _os
+_sp = _ilu.spec_from_file_location('spec_C04_for_C01', _os.path.join(_os.path.dirname(__file__), '..', 'C04', 'spec.py'))
+_c04 = _ilu.module_from_spec(_sp); _sp.loader.exec_module(_c04)
+_need = ('t_expiration', 'sat_sub', 't_get', 't_expired', 'prelocked_thread_interrupt', 'thread_interrupt', 'prepare_usleep', 'resume_threads_inlined', 'th_min', 'idle_wait')
+TARGETS += [t for t in _c04.TARGETS if t.name in _need and t.name not in [x.name for x in TARGETS]]
+UNITS = {'mutex.c': 'mutex.c.in', 'qspin.c': 'qspin.c.in', 'sched.c': '../C04/sched.c.in'}
 PROOFS = [
     Proof('mutex/try_lock', 'mutex.c', 'h_try_lock', kind='L', min_obligations=2),
     Proof('mutex/lock', 'mutex.c', 'h_lock', kind='L', min_obligations=5),
@@ -69,6 +76,8 @@ PROOFS = [
     Proof('qspinlock/try_lock', 'qspin.c', 'h_qs_try_lock', kind='L', min_obligations=2),
     Proof('qspinlock/lock', 'qspin.c', 'h_qs_lock', kind='L', min_obligations=3),
     Proof('qspinlock/unlock', 'qspin.c', 'h_qs_unlock', kind='L', min_obligations=3),
+    Proof('handoff/interrupt_keeps_reason', 'sched.c', 'h_interrupt', kind='L', defines=['STUB_PRELOCKED'], min_obligations=5),
+    Proof('handoff/wake_sleeper', 'sched.c', 'h_prelocked', kind='L', min_obligations=4),
     Proof('ticket_spinlock', 'mutex.c', 'h_ticket', kind='L', min_obligations=3),
 ]
 NATIVES = []
